@@ -11,6 +11,8 @@ PROPS = {
     "C04": "c04_not",
     "C05": "c05_captures",
     "C07": "c07_alignment",
+    "C11": "c11_scan",
+    "C12": "c12_modes",
 }
 
 
